@@ -83,6 +83,8 @@ func runSmall(c *core.Ctx) []core.Obligation {
 	smallCompactSeqID(c, b)
 	smallEmptyMessagePresence(c, b)
 	smallParseRemainderSkipsSpaces(c, b)
+	smallRepeatedNilElement(c, b)
+	smallFlagTestsMask(c, b)
 	smallStringOptionNull(c, b)
 	smallStringOptionMarshaler(c, b)
 	return b.out
@@ -3619,5 +3621,122 @@ func smallParseRemainderSkipsSpaces(c *core.Ctx, b *ob) {
 		b.addP(props, core.Violation, key, bad, "decoder.parse returns a remainder that did not go through skipSpaces on this path: after a type error inside the value ({\"x\":300}\\n into struct{X uint8}) the remainder starts with the white space that follows it, Unmarshal reports a syntax error for that byte instead of the UnmarshalTypeError encoding/json gives, and Parse's callers resume before the white space")
 	default:
 		b.addP(props, core.Discharged, key, c.FuncPos(fn), fmt.Sprintf("%d return(s), each hands back skipSpaces(remainder)", n))
+	}
+}
+
+// S58 — every element of a repeated field is written as a tag followed by a value. The element
+// codec of a []*T writes nothing for a nil pointer (its size is 0): the tag then stands alone,
+// and what follows is read as its value — struct{S []*int}{S: []*int{nil, &one}} marshals to
+// 08 08 01. The size and encode closures of the slice codec must substitute a value for a nil
+// element: the pointer they hand to the element codec is not always the raw slot of the slice.
+func smallRepeatedNilElement(c *core.Ctx, b *ob) {
+	props := []string{"C12", "C03"}
+	for _, spec := range [][2]string{{"proto.sliceEncodeFuncOf$1", "encode"}, {"proto.sliceSizeFuncOf$1", "size"}} {
+		key := "proto-repeated:nil-element-has-a-value:" + spec[1]
+		fn := c.Lookup(spec[0])
+		if fn == nil {
+			b.addP(props, core.Undecided, key, "-", spec[0]+" not found")
+			continue
+		}
+		found, raw := 0, ""
+		for _, ci := range callsIn(fn) {
+			cc := ci.Common()
+			if cc.IsInvoke() || staticCallee(cc) != nil {
+				continue
+			}
+			// a dynamic call of the element codec: the element pointer is the unsafe.Pointer argument
+			var arg ssa.Value
+			for _, a := range cc.Args {
+				if a.Type().String() == "unsafe.Pointer" {
+					arg = a
+				}
+			}
+			if arg == nil {
+				continue
+			}
+			isIndex := func(v ssa.Value) bool {
+				call, ok := v.(*ssa.Call)
+				return ok && strings.HasSuffix(calleeName(call.Common()), "Slice).Index")
+			}
+			os := origins(arg)
+			fromSlice, other := false, false
+			for _, o := range os {
+				if isIndex(o) {
+					fromSlice = true
+				} else {
+					other = true
+				}
+			}
+			if !fromSlice {
+				continue
+			}
+			found++
+			if !other {
+				raw = c.InstrPos(ci)
+			}
+		}
+		switch {
+		case found == 0:
+			b.addP(props, core.Undecided, key, c.FuncPos(fn), "no call of the element codec on a slice element found")
+		case raw != "":
+			b.addP(props, core.Violation, key, raw, fmt.Sprintf("%s hands every slot of the slice to the element codec as it is: for a nil element of a []*T the codec writes nothing, so the element's tag stands alone — struct{S []*int}{S: []*int{nil, &one}} marshals to 08 08 01 (field 1 = 8, then a tag with field number 0), struct{S []*string}{S: []*string{nil}} to the bare tag 0a, which Unmarshal rejects", spec[0]))
+		default:
+			b.addP(props, core.Discharged, key, c.FuncPos(fn), "a nil element is replaced before the element codec sees it")
+		}
+	}
+}
+
+// S59 — a flag is tested by masking it: (flags & F) != 0. The one-character slip (flags &^ F) != 0
+// asks whether any *other* flag is set: with the default flag sets the two agree often enough for
+// a suite to pass (0 and EscapeHTML|SortMapKeys), and differ for the other subsets — struct keys
+// come out HTML-escaped with {SortMapKeys} alone. Every comparison with zero of an and-not whose
+// right operand is a named flag constant is reported; the count of ordinary mask tests is kept as
+// evidence that the scan sees the flag tests at all.
+func smallFlagTestsMask(c *core.Ctx, b *ob) {
+	props := []string{"C14", "C01", "C02"}
+	key := "flag-tests:mask-not-complement"
+	masks, bad := 0, ""
+	for _, fn := range c.RepoFunctions() {
+		if fn.Blocks == nil || fn.Pkg == nil || fn.Pkg.Pkg.Name() != "json" {
+			continue
+		}
+		for _, blk := range fn.Blocks {
+			for _, in := range blk.Instrs {
+				cmp, ok := in.(*ssa.BinOp)
+				if !ok || (cmp.Op != token.NEQ && cmp.Op != token.EQL) {
+					continue
+				}
+				if k, isK := constInt(cmp.Y); !isK || k != 0 {
+					continue
+				}
+				m, ok := cmp.X.(*ssa.BinOp)
+				if !ok {
+					continue
+				}
+				if _, isK := constUint(m.Y); !isK {
+					continue
+				}
+				t := m.X.Type().String()
+				if !strings.HasSuffix(t, "Flags") && !strings.HasSuffix(t, "flags") {
+					continue
+				}
+				switch m.Op {
+				case token.AND:
+					masks++
+				case token.AND_NOT:
+					if bad == "" {
+						bad = c.InstrPos(cmp)
+					}
+				}
+			}
+		}
+	}
+	switch {
+	case bad != "":
+		b.addP(props, core.Violation, key, bad, "a flag set is tested with (flags &^ F) != 0 — true when any flag other than F is set — where every other test masks the flag it asks about ((flags & F) != 0): the outcome is right for the flag sets Marshal and the suite use and wrong for the other subsets (struct keys HTML-escaped with SortMapKeys alone, EscapeHTML off)")
+	case masks < 10:
+		b.addP(props, core.Undecided, key, "-", fmt.Sprintf("only %d flag tests of the form (flags & F) ⋈ 0 found in json", masks))
+	default:
+		b.addP(props, core.Discharged, key, "-", fmt.Sprintf("%d flag tests in json, each masks the flag it asks about", masks))
 	}
 }
